@@ -208,9 +208,9 @@ def gen_cases(tier, seed, shapes=None, per_shape=None):
             cid += 1
         # collect_into a target that already holds elements, with enough new ones to need growth
         # (SplitVec fragments, FixedVec/Vec spare room smaller than the output)
-        if src in ("vec", "iterx", "iteru", "slice") and ch in ("M", "F", "X", "O", "MF"):
+        if src in ("vec", "iterx", "iteru", "slice") and ch in ("", "M", "F", "X", "O", "MF"):
             for tg in "svfgw":
-                for n_ in [60, 130]:
+                for n_ in [5, 60, 130]:
                     cases.append(corner_case(r, cid, src, ch, "ci:%s:1/2/3/4/5/6/7/8/9" % tg, 4, ("C", 3), n_, "alt"))
                     cid += 1
         # by-key extrema with certain ties, sequentially and in parallel (ascending input, key = value mod 3)
